@@ -11,6 +11,7 @@ import (
 	"encoding/json"
 	"fmt"
 	"os"
+	"reflect"
 	"testing"
 	"time"
 )
@@ -190,4 +191,24 @@ func Put64(b []byte, v uint64) {
 }
 
 // TimeSec returns an arbitrary whole-second wall-clock instant.
+// JSONCopy: *dst = what json.Unmarshal(json.Marshal(*src)) yields (dst, src pointers of one
+// type); false = Marshal failed. Symbolically this is a type-directed model that follows
+// encoding/json's field-selection rules on the real types; natively it is encoding/json.
+func JSONCopy(dst, src any) bool {
+	b, err := json.Marshal(src)
+	if err != nil {
+		return false
+	}
+	return json.Unmarshal(b, dst) == nil
+}
+
 func TimeSec() time.Time { return time.Unix(int64(Int()), 0).UTC() }
+
+// FillAny makes every field of *ptr that can be built generically (scalars, strings, byte
+// slices, one-element slices, pointers, nested structs, time.Time) non-empty and symbolic.
+// It has no native counterpart (harnesses using it replay symbolically).
+func FillAny(ptr any) { panic("vf.FillAny has no native semantics") }
+
+// DeepEqual: structural equality of *a and *b as a JSON consumer sees it (nil and empty
+// slices alike, pointers by pointee; maps and interfaces are not compared).
+func DeepEqual(a, b any) bool { return reflect.DeepEqual(a, b) }
